@@ -20,6 +20,18 @@ CHECKS = {
         note="statements a dialect refuses to parse are outside the space; violations whose tag set strictly contains another "
              "violation's tag set in the same dialect are counted but not reported separately. " + TRUST,
         design="2/C01"),
+    "C09": dict(
+        category="model_checking", engine="E2",
+        technique="explicit exploration of call histories (all single calls, all ordered pairs) on real trees with an argument-unchanged invariant; copy independence under every tree mutation",
+        text="States are (argument tree, caches left by earlier calls). Every public non-mutating call - Expression.sql into all 34 "
+             "dialects (plus pretty/identify), transform, 14 builders with copy=True, optimize, qualify/annotate/normalize_identifiers "
+             "on a copy, expand, replace_tables, replace_placeholders, diff in both roles, lineage - is applied to every tree of the core "
+             "grammar (parsed in base and native dialects) and identity.sql, to attached sub-trees, and in all ordered pairs on the "
+             "simplest trees; after each history the argument's exact fingerprint (args, comments, types, meta), its own parent link, "
+             "its SQL text, its internal links and cached hashes must be unchanged/valid. Every C08 mutation at every position of a "
+             "copy must leave the original untouched and vice versa.",
+        note="exceptions raised by the calls are not judged here. " + TRUST,
+        design="2/C09"),
     "C12": dict(
         category="model_checking", engine="E2",
         technique="closure graph: every serde/copy transition (and 2-compositions) from every enumerated tree state must return to an equal state",
